@@ -224,6 +224,10 @@ func genHistory(t *rapid.T, maxLen int, garbageCtl bool) hCase {
 	c.Cfg.BinaryMIME = rapid.Bool().Draw(t, "binarymime")
 	if rapid.Bool().Draw(t, "tls") {
 		c.Cfg.TLS = "starttls"
+		if rapid.IntRange(0, 3).Draw(t, "implicit_tls") == 0 {
+			// TLS from the first octet (a TLS listener); STARTTLS is then refused
+			c.Cfg.TLS = "implicit"
+		}
 	}
 	c.Cfg.AllowInsecureAuth = rapid.IntRange(0, 3).Draw(t, "insecure") != 0
 	if rapid.IntRange(0, 2).Draw(t, "shortlines") == 0 {
@@ -671,7 +675,12 @@ type monitor struct {
 }
 
 func newMonitor(c hCase) *monitor {
-	return &monitor{cfg: c.Cfg, script: c.Script, classes: map[string]bool{}}
+	m := &monitor{cfg: c.Cfg, script: c.Script, classes: map[string]bool{}}
+	m.tls = c.Cfg.ImplicitTLS()
+	if m.tls {
+		m.classes["implicit_tls"] = true
+	}
+	return m
 }
 
 // preload accounts for the scripted decisions used up before the judged
@@ -864,6 +873,9 @@ func (m *monitor) step(s stepRec) string {
 				if ns.Hostname != cmd.Arg || ns.TLS != m.tls {
 					return fmt.Sprintf("%s: NewSession observed Hostname()=%q TLS=%v, want %q %v", cmd, ns.Hostname, ns.TLS, cmd.Arg, m.tls)
 				}
+				if ns.TLS && !ns.TLSReady {
+					return fmt.Sprintf("%s: the TLS state NewSession could query is not that of the connection's completed handshake (HandshakeComplete false, or no version / cipher suite)", cmd)
+				}
 			}
 			m.lost = false
 			m.session, m.greeted, m.helo = true, true, cmd.Arg
@@ -939,6 +951,9 @@ func (m *monitor) step(s stepRec) string {
 		}
 		if ns[0].Hostname != cmd.Arg || ns[0].TLS != m.tls {
 			return fmt.Sprintf("%s: NewSession observed Hostname()=%q TLS=%v, want %q %v", cmd, ns[0].Hostname, ns[0].TLS, cmd.Arg, m.tls)
+		}
+		if ns[0].TLS && !ns[0].TLSReady {
+			return fmt.Sprintf("%s: the TLS state NewSession could query is not that of the connection's completed handshake (HandshakeComplete false, or no version / cipher suite)", cmd)
 		}
 		d := pickD(m.script.NewSession, m.nNew)
 		if d.OK() {
